@@ -1,5 +1,9 @@
 """C17 -- fitting is deterministic, side-effect free and history independent."""
+import os
 import pickle
+import subprocess
+import sys
+import tempfile
 
 import numpy as np
 from sklearn.base import clone
@@ -27,7 +31,10 @@ RULE = ('cases = random call histories (length 6..14) per estimator (all 17) '
         'monitors on every API call compare the bytes of all arguments, of '
         'get_params() values and (query methods) of vars(estimator) before '
         'and after. Handed-out metric functions and matrices are re-queried '
-        'after later refits. An evaluation is one model comparison or one '
+        'after later refits. At the end of a history the last fit is also '
+        'replayed in a pristine interpreter (C17.fresh-process), which shares '
+        'no module-level, class-level or memoised state with the process '
+        'that ran the history. An evaluation is one model comparison or one '
         'online fingerprint comparison. distinct_nontrivial counts distinct '
         '(estimator, history) with at least two fits on different data.')
 ASSUMPTIONS = ['model equality is judged at 1e-9 relative on M and probe '
@@ -49,7 +56,8 @@ def cases(tier, seed):
       out.append({'est': name, 'hseed': int(r.randint(2**31 - 1)),
                   'length': int(r.randint(6, 15)),
                   'prep': bool(h % 3 == 2), 'variant': h,
-                  'ro': bool(h % 2 == 1)})
+                  'ro': bool(h % 2 == 1),
+                  'fresh': bool(not q or h % 3 != 1)})
   return _with_repotests(out, tier)
 
 
@@ -67,7 +75,8 @@ def required(tier):
           'C17.handed-out-metric-stable': n, 'C17.handed-out-matrix-stable': n // 2,
           'C17.returned-matrix-is-a-copy': n // 2, 'C17.pickle': n // 3,
           'G.C17.args': 20 * n, 'G.C17.params': 20 * n, 'G.C17.state': 10 * n,
-          'C17.no-write-into-arguments': n // 2}
+          'C17.no-write-into-arguments': n // 2,
+          'C17.fresh-process': n // 2}
 
 
 def _probe(est, Q):
@@ -120,6 +129,31 @@ def _compare(j, mon, est, twin, Q, det):
   return same
 
 
+def _fresh_process_twin(proto, args, kwargs, since_fit, np_seed):
+  """The last fit replayed in a pristine interpreter (nothing outside the
+  pickled arguments is shared with this process).  -> (estimator | None,
+  error text | None)"""
+  tmp = tempfile.mkdtemp(prefix='c17-fresh-')
+  try:
+    inp, out = os.path.join(tmp, 'in.pkl'), os.path.join(tmp, 'out.pkl')
+    with open(inp, 'wb') as f:
+      pickle.dump({'est': proto, 'args': args, 'kwargs': kwargs,
+                   'since_fit': since_fit, 'np_seed': np_seed}, f)
+    root = os.path.dirname(os.path.dirname(os.path.dirname(
+        os.path.abspath(__file__))))
+    r = subprocess.run([sys.executable, '-B', '-m', 'mlverif.fresh_fit',
+                        inp, out], cwd=root, capture_output=True, text=True,
+                       timeout=900)
+    if r.returncode != 0 or not os.path.exists(out):
+      raise RuntimeError('fresh_fit failed: %s' % r.stderr[-500:])
+    with open(out, 'rb') as f:
+      res = pickle.load(f)
+    return res.get('est'), res.get('error')
+  finally:
+    import shutil
+    shutil.rmtree(tmp, ignore_errors=True)
+
+
 def run_case(spec, j):
   if spec.get('kind') == 'repotests':
     from .. import repotests
@@ -137,6 +171,15 @@ def run_case(spec, j):
            'classes': int(rng.randint(2, 4)), 'variant': 'plain',
            'nmax': int(rng.choice([30, 45, 60]))}
     ds = common.dataset(dss)
+    if i == 2 and spec['hseed'] % 2 == 0:
+      # same shape (n, d) and labels as dataset 0, other values: a memo keyed
+      # on shapes is stale exactly here
+      ds0 = fits[0]['ds']
+      ds = dict(ds0)
+      X0 = np.asarray(ds0['X'], dtype=float)
+      ds['X'] = X0 * rng.uniform(0.5, 2.0, size=X0.shape[1]) + \
+          0.7 * rng.randn(*X0.shape)
+      ds['t'] = np.asarray(ds0['t']) + 0.3 * rng.randn(len(X0))
     cfgs = [c for c in configs.light(name, ds['d'], ds['classes'])
             if not c.get('diagonal')]   # (may legitimately raise: C14)
     cfg = dict(cfgs[spec['variant'] % len(cfgs)])
@@ -390,6 +433,22 @@ def run_case(spec, j):
                  mechanism='history-raised-' + type(e).__name__)
       return
   check_handed()
+  if spec.get('fresh') and cur is not None:
+    # second reference model: the last fit replayed in a pristine process
+    a, k = args_for(cur)
+    with api.paused():
+      tw, err = _fresh_process_twin(clone(proto['est']), a, k, since_fit,
+                                    int(rng.randint(2**31 - 1)))
+    if tw is None:
+      if name in ('SDML', 'SDML_Supervised') and 'RuntimeError' in err:
+        j.skip('C17.fresh-process', 'sdml-solver-failure')
+      else:
+        j.violated('C17.fresh-process',
+                   dict(det, ops=ops[-8:], fresh_process_raised=err),
+                   mechanism='fresh-process-fit-raised')
+    else:
+      Q = fits[cur]['X'][rng.randint(0, len(fits[cur]['X']), size=(6, 2))]
+      _compare(j, 'C17.fresh-process', est, tw, Q, dict(det, ops=ops[-8:]))
   if spec.get('ro'):
     j.ok('C17.no-write-into-arguments')
   if len(fitted_sets) >= 2:
@@ -407,12 +466,14 @@ LEVEL_TEXT = ('Exploration by runtime monitoring of random call histories '
               'dimensionality; online monitors on every public call compare '
               'the bytes of all arguments, hyper-parameters and (for query '
               'methods) fitted state before and after; handed-out metric '
-              'functions and matrices are re-queried after later refits. '
+              'functions and matrices are re-queried after later refits; '
+              'the final model is also compared with the same fit made in a '
+              'pristine interpreter (state kept outside the object). '
               'Held on the histories in the evidence file.')
 LEVEL_NOTE = ('Histories are sequential (the library has no concurrency); '
               'the global numpy RNG is reseeded differently before the fit '
               'of the object and of its twin so that any use of global '
               'randomness shows up as a difference.')
 TECHNIQUE = ('runtime monitoring: history + executable reference model '
-             '(fresh-clone twin), online argument/parameter/state '
+             '(fresh-clone twin in process + fresh-interpreter twin), online argument/parameter/state '
              'fingerprint invariants on wrapped public methods')
